@@ -31,15 +31,19 @@ Fixpoint number_from (p : str) (i : Z) (os : list (str * str * oinfo)) : list (s
   | (n, d, inf) :: r => (pfx p n, i, d, inf) :: number_from p (i + 1)%Z r
   end.
 
+(* isExplicitZero (since /repo a65e1f2): the first option spells the zero value,
+   UNSPECIFIED or <prefix>UNSPECIFIED — enumValueName(prefix, name) == prefix+"UNSPECIFIED" *)
+Definition is_zero_opt (p n : str) : bool := str_eqb (pfx p n) (p ++ unspecified)%list.
+
 (* visitEnumNode: <prefix>UNSPECIFIED = 0 is always there; an explicit first
-   option ending in UNSPECIFIED replaces it; the others count from 1; addValue
-   copies the option's info; the info fields go to (j5.ext.v1.enum) *)
+   option spelling it replaces it (to carry a description / info); the others count
+   from 1; addValue copies the option's info; the info fields go to (j5.ext.v1.enum) *)
 Definition write_enum (e : enum_decl) : enum_out :=
   let p := ed_prefix e in
   EO (ed_desc e)
      (match ed_options e with
       | (n, d, inf) :: r =>
-          if has_suffix unspecified n
+          if is_zero_opt p n
           then (pfx p n, 0%Z, d, inf) :: number_from p 1%Z r
           else ((p ++ unspecified)%list, 0%Z, [], []) :: number_from p 1%Z (ed_options e)
       | [] => [((p ++ unspecified)%list, 0%Z, [], [])]
@@ -91,16 +95,13 @@ Definition norm_enum (e : enum_decl) : renum :=
       end)
      (ed_info e).
 
-(* the fragment: every description survives commentDescription unchanged, and an
-   explicit first option ending in UNSPECIFIED is spelled UNSPECIFIED or
-   <prefix>UNSPECIFIED (and the prefix is not itself a prefix of "UNSPECIFIED") *)
+(* the fragment: every description survives commentDescription unchanged, and the
+   compiler and the declared meaning agree on whether the first option is the zero
+   value (they differ only when the first option is UNSPECIFIED and the prefix is
+   itself a non-empty prefix of "UNSPECIFIED", e.g. prefix "UN") *)
 Definition unspec_ok (e : enum_decl) : bool :=
   match ed_options e with
-  | (n, _, _) :: _ =>
-      if has_suffix unspecified n
-      then str_eqb n (ed_prefix e ++ unspecified)%list
-           || (str_eqb n unspecified && negb (has_prefix (ed_prefix e) unspecified))
-      else true
+  | (n, _, _) :: _ => Bool.eqb (names_unspecified (ed_prefix e) n) (is_zero_opt (ed_prefix e) n)
   | [] => true
   end.
 Definition enum_rt (e : enum_decl) : bool :=
